@@ -8,7 +8,7 @@ SPEC = {
                    'addvar2', 'rtvar2', 'addbuf', 'getbuf', 'getbuf0', 'rtbuf'],
     'trusted_base': [
         "model N2k/Model/Text.lean transcribes by hand AddStr/SetBufStr, AddAISStr, AddVarStr, GetStr (both), GetVarStr, "
-        "N2kRequireUnicode, N2kUTF8SeqBytes, N2kUTF8ToUCS2, N2kUTF8ToASCII, N2kUCS2ToUTF8 of N2kMsg.cpp (as fixed in the "
+        "AddVarStr(str), AddBuf, GetBuf, N2kRequireUnicode, N2kUTF8SeqBytes, N2kUTF8ToUCS2, N2kUTF8ToASCII, N2kUCS2ToUTF8 of N2kMsg.cpp (as fixed in the "
         "worktree); tied to the compiled code only by the differential run (whole 223-byte Data array / whole destination "
         "compared byte for byte per op)",
         "C string memory is `bytes ++ [0]` with a pointer = remaining suffix; payload and destination are Nat->Nat with "
@@ -22,6 +22,8 @@ SPEC = {
         "non-null string and destination pointers (the null-pointer early-outs are not modelled)",
         "0 <= DataLen <= 223 and Index >= 0 on entry; maxima and lengths are non-negative (a negative len makes "
         "AddAISStr DECREASE DataLen - outside the property's quantifier, not modelled)",
+        "AddBuf/GetBuf: the caller's array really has bufLen / Length bytes; lengths far below SIZE_MAX (DataLen+bufLen "
+        "does not wrap)",
         "AddStr: the maximum fits the remaining payload (stated precondition; C16_addStr_overflow_witness shows why)",
         "unsized GetStr(char*,size_t,int&): destination of at least Length+1 bytes (it has no size parameter; "
         "C16_getStr1_contract_witness shows the overrun otherwise)",
@@ -35,7 +37,9 @@ MANIFEST = {
             "payload, index, length/type byte and destination size (0 included) GetStr/GetVarStr never fault and "
             "NUL-terminate; round trips proved for fixed fields, AIS fields (upper-cased / replaced), and variable fields "
             "at every fill level: ASCII verbatim, well-formed UTF-8 through UCS-2 (2-/3-byte sequences preserved, 4-byte "
-            "sequences -> '?', cut at whole characters) and through the ASCII-only policy (multi-byte -> '?'). The "
+            "sequences -> '?', cut at whole characters) and through the ASCII-only policy (multi-byte -> '?'); AddVarStr(str) "
+            "round trip for text that fits; AddBuf clips to the free payload and changes nothing else, GetBuf copies exactly "
+            "Length bytes or refuses without writing, arrays come back in sequence. The "
             "model is tied to N2kMsg.cpp by a correspondence run on exact-size heap buffers and a guard page, with an "
             "independent oracle (sanitizer, guard page, object snapshot, stale-byte independence, reference UTF-8 decoder).",
     'design_ref': 'DESIGN.md section 4, C16',
